@@ -4,4 +4,5 @@ import GeoVerif.Ops.CashFlow
 import GeoVerif.Ops.Capex
 import GeoVerif.Ops.Plant
 import GeoVerif.Ops.Reservoir
+import GeoVerif.Ops.Pressure
 /-! Everything the driver needs (import-free models + ops). -/
